@@ -874,7 +874,8 @@ def check_c20(tier, seed, work):
         mc = vf.run_tlc(work, "Malformed", MALFORMED_CFG % m, tag="mf" + m, workers=8)
         states += mc["distinct"]; trans += mc["states"]
         outs.append(mc["out"])
-    r = run_replay(bindir, h, "malformed", ["-in", ",".join(outs), "-prop", "C20", "-pkgs", ",".join(cfgs), "-strlen", "5" if tier == "quick" else "6"], work, "malformed")
+    r = run_replay(bindir, h, "malformed", ["-in", ",".join(outs), "-prop", "C20", "-pkgs", ",".join(cfgs), "-strlen", "5" if tier == "quick" else "6",
+                                                 "-seed", str(seed), "-fuzz", "3000" if tier == "quick" else "100000"], work, "malformed")
     if r["evaluated"] == 0:
         raise Infra("malformed replay evaluated nothing")
     cov = dict(states=states, transitions=trans, traces_validated_against_impl=r["evaluated"], exhaustive=False, grid_cases=r["distinct"],
@@ -885,7 +886,9 @@ def check_c20(tier, seed, work):
                "BestEffortUnmarshal, into an empty and a populated root); 9 path operations x 27 path shapes x 20 TypedValue shapes; 7 "
                "request APIs x 20 request / notification shapes; pairs of malformed operations on one tree; every string over "
                "{a / [ ] = \\ space non-ASCII} up to length %s for StringToPath. This is exhaustive over the shapes of the grid, not over "
-               "bytes: the property's quantifier (all byte strings) is only sampled." % ("5" if tier == "quick" else "6"))
+               "bytes: the property's quantifier (all byte strings) is only sampled, by %s seeded byte-level mutations per package of a well-formed "
+               "document (Unmarshal with and without IgnoreExtraFields) and of well-formed path strings (StringToStructuredPath, then GetNode / SetNode / "
+               "GetOrCreateNode / DeleteNode on the parsed path)." % ("5" if tier == "quick" else "6", "3000" if tier == "quick" else "100000"))
     # any violation of C20 found by this grid counts; the other replays also report panics under C20
     return cov, r.get("violations") or []
 
